@@ -150,12 +150,16 @@ TopOpn(t, full) ==
 TopP(t, full) ==
   IF t.k = "cond"
   THEN (IF t.c.k = "cond" THEN PAR(TopP(t.c, full)) ELSE TopOpn(t.c, full))
-       \o <<TOp("?")>> \o TopP(t.a, full) \o <<TOp(":")>> \o TopP(t.b, full)
+       \o (IF full = "elvis" /\ t.c = t.a                 \* the short form `c ?: b` of `c ? c : b`
+           THEN <<TOp("?"), TOp(":")>>
+           ELSE <<TOp("?")>> \o TopP(t.a, full) \o <<TOp(":")>>)
+       \o TopP(t.b, full)
   ELSE TopOpn(t, full)
 
 Min(t)    == TopP(t, "min")
 Full(t)   == TopP(t, "full")
 Sticky(t) == TopP(t, "sticky")
+Elvis(t)  == TopP(t, "elvis")
 
 ---------------------------------------------------------------------------
 (* Text of a token sequence under a layout.                                *)
